@@ -22,6 +22,7 @@ type Env struct {
 	li      *loopInfo
 	locals  *Frame
 	err     func(string)
+	underQuant bool
 }
 
 func (f *Frame) evalClause(c Clause, st, old *State, results []EV, li *loopInfo) string {
@@ -281,7 +282,9 @@ func (e *Env) eval(x *Expr) Val {
 			ne = ne.bind(qv.Name, Val{qv.Name, s, gt})
 			decl = append(decl, fmt.Sprintf("(%s %s)", qv.Name, s))
 		}
-		body := ne.evalBool(x.Args[0])
+		ne2 := *ne
+		ne2.underQuant = true
+		body := ne2.evalBool(x.Args[0])
 		return Val{fmt.Sprintf("(%s (%s) %s)", x.Op, strings.Join(decl, " "), body), SBool, nil}
 	case "sel":
 		return e.evalSel(x)
@@ -490,7 +493,11 @@ func (e *Env) evalSel(x *Expr) Val {
 	fs := vc.sortOf(ft)
 	if isPtr {
 		arr := f.getCell(e.st, f.heapKey(et, x.Name), "(Array Int "+fs+")")
-		return Val{sx("select", arr, base.t), fs, ft}
+		r := Val{sx("select", arr, base.t), fs, ft}
+		if !e.underQuant {
+			f.assumeAlive(e.st, r)
+		}
+		return r
 	}
 	return Val{sx(vc.S.fieldSel(base.s, st, idx), base.t), fs, ft}
 }
@@ -577,6 +584,18 @@ func (e *Env) evalCall(x *Expr) Val {
 		}
 		e.fail("has() on non-map")
 		return Val{"true", SBool, nil}
+	case "deref": // deref(p): the struct value a pointer refers to
+		a := e.eval(x.Args[0])
+		if et, isPtr := derefType(a.gt); isPtr {
+			if _, isStruct := et.Underlying().(*types.Struct); isStruct {
+				return f.loadStruct(e.st, a.t, et)
+			}
+			s := vc.sortOf(et)
+			arr := f.getCell(e.st, "D:"+vc.S.typeName(et), "(Array Int "+s+")")
+			return Val{sx("select", arr, a.t), s, et}
+		}
+		e.fail("deref of non-pointer")
+		return a
 	case "content": // content(bs) : Str
 		a := e.eval(x.Args[0])
 		if a.s == SBS {
